@@ -1,9 +1,13 @@
 #!/usr/bin/env bash
 # tools/with-patch.sh <patch.diff> <command...> – apply a seeded change to /repo, run the command, undo it.
+# The evidence directory is preserved; the harness is rebuilt against the clean tree afterwards.
 set -u
 patch="$1"; shift
 git -C /repo diff --quiet || { echo "/repo has uncommitted changes" >&2; exit 2; }
+save=$(mktemp -d); cp -a /verif/evidence "$save/evidence" 2>/dev/null
 git -C /repo apply "$patch" || { echo "patch does not apply" >&2; exit 2; }
 "$@"; rc=$?
 git -C /repo checkout -q -- . ; git -C /repo clean -fdq -- src
+rm -rf /verif/evidence; [ -d "$save/evidence" ] && cp -a "$save/evidence" /verif/evidence; rm -rf "$save"
+/verif/check --build
 exit $rc
